@@ -22,7 +22,7 @@ CHECKS = {
             'Transport, HTTP server, ws-discovery, clock, uuid4 and Thread.start are harness stand-ins; one MDIB file '
             '(tests/mdib_tns.xml); depth and alphabet bounds as stated in the evidence.', '3/C01'),
     'C02': ('H', 'explicit-state exploration of provider transaction histories incl. all ordered pairs of related operations inside one transaction; version and referential invariants on consecutive canonical snapshots',
-            'Extensions: late-raise[...] events (application code raises after the commit: the commit stands); a changed set of children requires a higher DescriptorVersion of the parent; in-place list edit and signal create/delete events in the alphabet; aborted transactions (pre-commit handler raises) between a delete and a re-create of a handle, pre-state with a removed handle whose versions were above zero. '
+            'Extensions: distribution sample array metric (a metric kind none of the MDIB files has) created / updated / valued / deleted / re-created through both interfaces; late-raise[...] events (application code raises after the commit: the commit stands); a changed set of children requires a higher DescriptorVersion of the parent; in-place list edit and signal create/delete events in the alphabet; aborted transactions (pre-commit handler raises) between a delete and a re-create of a handle, pre-state with a removed handle whose versions were above zero. '
             'All 2-event histories over the 48-event alphabet, 60 multi-operation descriptor transactions (every ordered pair of '
             '9 related operations on parent / grandparent / child / siblings / descriptor+state through the classic and the entity '
             'interface, plus triples) from 5 pre-states and followed by every core event (thorough: depth 3, pairs of such '
@@ -46,7 +46,7 @@ CHECKS = {
             '(e.g. a table operation raising spontaneously) are not injected; tr.actual_descriptor() is a documented read accessor to '
             'the live object and is not treated as a copy.', '3/C03'),
     'C04': ('H+S', 'explicit-state exploration of transaction histories with a recording subscriber (wire messages re-parsed with lxml and validated by a harness-built XMLSchema); schedule exploration of concurrent writers for ordering',
-            'Extensions: statement-granularity pass of the concurrent-writer part; in-place list edits (extension, body site) in the periodic-report histories; every Crt/Upt part of a DescriptionModificationReport carries exactly the committed states of its descriptor (all context states); slow subscriber on the async managers: the k-th delivery takes 4-61 virtual seconds on a virtual asyncio loop, reports must still arrive in MdibVersion order and none may be lost. '
+            'Extensions: a channel handle that exists first under one MDS and, after its removal, under the other one (SourceMds of the later reports); statement-granularity pass of the concurrent-writer part; in-place list edits (extension, body site) in the periodic-report histories; every Crt/Upt part of a DescriptionModificationReport carries exactly the committed states of its descriptor (all context states); slow subscriber on the async managers: the k-th delivery takes 4-61 virtual seconds on a virtual asyncio loop, reports must still arrive in MdibVersion order and none may be lost. '
             'Every event of the 50-event alphabet, all pairs over the 18-event core alphabet, pairs over two-MDS events on a two-MDS MDIB, '
             'the async subscription manager and the periodic-report store are executed with a recording subscriber. Every message on '
             'the wire is validated with an XMLSchema the harness builds from src/sdc11073/xsd (independent of the library validate '
@@ -58,7 +58,7 @@ CHECKS = {
             'Single subscriber; content comparison goes through the library reader (versions, handles, grouping through lxml only); '
             'ordering under concurrent writers is covered by the schedule-exploration part when present in the evidence.', '3/C04'),
     'C05': ('I', 'bounded-exhaustive enumeration of instances of every declared data-type / message / container class against the bundled XSD (independent libxml2 validator), canonical round-trip equality, write idempotence and object-identity rules',
-            'Extensions: read-your-write oracle (an assigned scalar is what is read back - no implied value may replace a falsy one); list-typed members re-spelled with other white space (tab / line break character references, indentation) must parse to the same value; hand-written XML members (HeaderInformationBlock.reference_parameters) in the value domain, purity and round-trip oracles; write / in-place edit of scalar lists / write again must equal a never-written equal value; exponent-form decimals in list attributes, the empty string for plain xsd:string members. '
+            'Extensions: the same value written with other prefixes for the same namespaces after a write with the default ones (schema-valid, same value when parsed); read-your-write oracle (an assigned scalar is what is read back - no implied value may replace a falsy one); list-typed members re-spelled with other white space (tab / line break character references, indentation) must parse to the same value; hand-written XML members (HeaderInformationBlock.reference_parameters) in the value domain, purity and round-trip oracles; write / in-place edit of scalar lists / write again must equal a never-written equal value; exponent-form decimals in list attributes, the empty string for plain xsd:string members. '
             '225 classes found by reflection (participant model, message model, WS-Addressing / Eventing / Discovery / DPWS / MEX, SOAP fault, '
             'all state and descriptor containers; 174 validated as their named XSD type through a harness-generated wrapper schema or as global '
             'element, the rest inside their owners). Per class: the base instance (members that the library or the XSD requires), every single '
@@ -73,7 +73,7 @@ CHECKS = {
             'are not enumerated; msg_types.GetMdibResponse is round-trip only (raw element tree member). A small XSD structure model (mcx/xsdmodel.py) '
             'is used only to keep inputs inside the schema space, validity is always decided by libxml2.', '3/C05'),
     'C06': ('H+S', 'exhaustive enumeration of delivery sequences (each report 0, 1 or 2 times, any order) on the real consumer endpoint; id-change/reload histories; preemption-bounded schedule exploration of initial load / reload against deferred report delivery',
-            'Extensions: InstanceId-only changes between absent / 0 / 1 / 2^40 with the SequenceId unchanged; race scenarios in which the provider leaves the context states out of GetMdib (second request during the load); histories whose report is rejected half-way after a lost delete; statement-granularity pass over mdib/consumermdib*.py; '
+            'Extensions: two consumer MDIBs in one process: GetMdib of A answered at n, commit n+1 buffered by A while B reloads, A must end as a mirror; InstanceId-only changes between absent / 0 / 1 / 2^40 with the SequenceId unchanged; race scenarios in which the provider leaves the context states out of GetMdib (second request during the load); histories whose report is rejected half-way after a lost delete; statement-granularity pass over mdib/consumermdib*.py; '
             '(a) For 10 (thorough 16) provider histories the notifications are captured on the wire and every delivery sequence in which '
             'each of the first 4 (thorough 5) messages occurs 0, 1 or 2 times in any order, of length <= n+1 (plus every single drop, '
             'duplicate, adjacent swap and replay for longer wire lists) is posted to the real consumer endpoint (message converter, '
@@ -114,7 +114,7 @@ CHECKS = {
             'One provider object is reused between histories (subscription table, client pool, wire log, clock, uuid counter are '
             'reset); expiry instants are never hit exactly; "sent" means handed to the subscriber-facing SOAP client.', '3/C08'),
     'C09': ('I+H', 'exhaustive enumeration of request sequences on the real provider stack (worker loop body driven explicitly) and of all orderings of response and reports on the real consumer OperationsManager; oracle = regular language of invocation-state words per transaction id',
-            'Extensions: invoke / un-register / invoke again histories; percent and brace characters in exception texts; statement- and bytecode-granularity pass of the concurrent-request part; raising handlers with awkward exception texts and types (control characters, XML markup, non-ASCII, lone surrogates, empty, 70 kB, CR/LF): the Fail report with error information must still be produced; bursts of 9-13 queued requests against the 10-entry operation queue (a Wait answer must be followed by Start and a final state); consumer handle completion judged by a reference rule (failing response completes at once, otherwise all parts up to the first final report); schedule part: 2-3 concurrent request threads, bound 2, transaction ids unique. '
+            'Extensions: provider replaced by a new instance at the same address (transaction ids restart), consumer restart(), second operation with another handler outcome - the second result handle completes with the states of its own transaction; invoke / un-register / invoke again histories; percent and brace characters in exception texts; statement- and bytecode-granularity pass of the concurrent-request part; raising handlers with awkward exception texts and types (control characters, XML markup, non-ASCII, lone surrogates, empty, 70 kB, CR/LF): the Fail report with error information must still be produced; bursts of 9-13 queued requests against the 10-entry operation queue (a Wait answer must be followed by Start and a final state); consumer handle completion judged by a reference rule (failing response completes at once, otherwise all parts up to the first final report); schedule part: 2-3 concurrent request threads, bound 2, transaction ids unique. '
             'Provider: every single request over 5 operation kinds (SetString, SetValue, Activate, SetContextState, SetAlertState) x '
             'direct/queued x handler {real, ok, ok-with-modification, returns Fail, raises}, the unknown operation, and pairs of requests '
             'from two consumers are sent through the real consumer service clients; the real SCO registry and worker loop body execute '
@@ -128,7 +128,7 @@ CHECKS = {
             'races that need a preemption inside generate_transaction_id are the subject of the schedule explorer (not part of this '
             'check yet).', '3/C09'),
     'C10': ('H', 'explicit-state exploration of histories of set_location, SetContextState invocations (real consumer client, provider SCO worker body, role provider) and context transactions; invariant on the context table and on every EpisodicContextReport',
-            'Extensions: two-proposal requests whose second proposal is rejected (unknown state handle) and data-only updates next to a new associated state; location context states proposed through SetContextState, mixed with set_location; statement-granularity pass of the race part; schedule part: a SetContextState request thread racing with a provider-side context change of the same descriptor (3 writers x 2-4 proposals, preemption bound 1, thorough 2), invariants evaluated on the table recorded at every commit. '
+            'Extensions: rejected second proposals that pass the up-front check (new associated state + unknown state handle) followed by valid requests; two-proposal requests whose second proposal is rejected (unknown state handle) and data-only updates next to a new associated state; location context states proposed through SetContextState, mixed with set_location; statement-granularity pass of the race part; schedule part: a SetContextState request thread racing with a provider-side context change of the same descriptor (3 writers x 2-4 proposals, preemption bound 1, thorough 2), invariants evaluated on the table recorded at every commit. '
             'All 2-event histories over 26 events and all 3-event histories over a 7-event core (thorough: larger core): SetContextState '
             'requests with one or two proposals (new / update of the first or second existing state / stale handle x NoAssociation, '
             'PreAssociation, Associated, Disassociated, including two associated proposals for one descriptor) sent by the real consumer '
@@ -141,7 +141,7 @@ CHECKS = {
             'Only the patient context has a SetContextState operation in tests/mdib_tns.xml; queued operations are executed by running '
             'the real worker loop body synchronously.', '3/C10'),
     'C11': ('H+S', 'explicit-state BFS with canonical-state dedup over table operation histories on the real MultiKeyLookup tables, plus MDIB history exploration, consumer MDIB after lost reports, and preemption-bounded schedule exploration (statement granularity) of a reader under the table lock against every locked mutator; invariant = indices equal an independent regrouping of table.objects',
-            'Extensions: get_one probed for every key of the attribute domains after every operation, with look-ups between the replayed operations (an answer remembered by an index must not survive a table change); unexpected exceptions of table operations are violations; re-created alert signal after a lost delete report; (c) consumer MDIB after every subsequence of the reports of histories whose later reports are then rejected half-way (lost delete before a re-create); (d) schedule part c11_sched: a reader holding the table lock against every locked mutator of MultiKeyLookup, scheduling points at every statement of multikey.py; '
+            'Extensions: consumer sync_context_states after context states were deleted without report (tables judged; the method raises on the unchanged tree after its first removal); get_one probed for every key of the attribute domains after every operation, with look-ups between the replayed operations (an answer remembered by an index must not survive a table change); unexpected exceptions of table operations are violations; re-created alert signal after a lost delete report; (c) consumer MDIB after every subsequence of the reports of histories whose later reports are then rejected half-way (lost delete before a re-create); (d) schedule part c11_sched: a reader holding the table lock against every locked mutator of MultiKeyLookup, scheduling points at every statement of multikey.py; '
             'Breadth-first search over add (3 variants) / remove (3 variants) / attribute write + update_object / clear / bulk add / '
             'update_objects / duplicate-key add on the real DescriptorsLookup, StatesLookup, MultiStatesLookup, a generic 3-index '
             'table and the subscription-table declaration, 2-3 stub objects with colliding attribute domains, depth 5-6 (thorough 5-9), '
@@ -179,7 +179,7 @@ CHECKS = {
             'blocking on an open idle connection is not modelled; the world is rebuilt after every state-changing accepted exchange (fork per '
             'case is 30-80 ms and serialises in this sandbox). Transaction-id counters are not part of the compared state.', '3/C13'),
     'C14': ('I+H', 'exhaustive enumeration of scope-URI pairs from a grammar against a reference matcher plus laws; explicit-state exploration of discovery datagram histories through the real reader/handlers against a reference model',
-            'Extensions: the same endpoint published again with other scopes (Probe answers follow the latest publication); application hello callback (raising / well-behaved) as an environment fault, repetition of older datagrams; requested scopes with the scheme in another case; authority grammar (host case, port, userinfo, IPv6 literal, empty port) in all ordered pairs. '
+            'Extensions: Probes whose type prefix is bound to another namespace / another prefix bound to the same namespace, in every order with normal Probes; the same endpoint published again with other scopes (Probe answers follow the latest publication); application hello callback (raising / well-behaved) as an environment fault, repetition of older datagrams; requested scopes with the scheme in another case; authority grammar (host case, port, userinfo, IPv6 literal, empty port) in all ordered pairs. '
             'All ordered pairs over a URI grammar (3 schemes x 3 authorities x 0-2 (thorough 3) path segments over {x, X, x%2Fy, %78, '
             'empty} x trailing slash x query; quick: every third URI as probe scope) under rfc3986, default and strcmp0 matching are '
             'compared with a 12-line reference matcher written from the property text, plus reflexivity and query-blindness; every '
@@ -192,7 +192,7 @@ CHECKS = {
             'ldap/uuid matching rules not covered; sockets replaced by a recording stub; the reference matcher mirrors the documented '
             'rule (raw split on "/", per-segment percent-decoding).', '3/C14'),
     'C15': ('I+S', 'exhaustive enumeration of all outcomes of both random draws (choice-point DFS on the real scheduling code); preemption-bounded schedule exploration of add_outbound_message against the send / loop-back path',
-            'Extensions: schedule part c15_sched: add_outbound_message against the send / loop-back / read path at statement granularity (the own id must be known before the first copy can come back); the real send loop on a virtual clock with a stop request before, between and after the scheduled transmissions: nothing is sent before its scheduled time or later than the loop raster. '
+            'Extensions: a second message handed over while the send loop waits for the next copy of the first; communication log (DirectoryLogger) that cannot be written any more after the first transmission; schedule part c15_sched: add_outbound_message against the send / loop-back / read path at statement granularity (the own id must be known before the first copy can come back); the real send loop on a virtual clock with a stop request before, between and after the scheduled transmissions: nothing is sent before its scheduled time or later than the loop raster. '
             'All 501 x 200 outcomes of the two random draws for the unicast and the multicast parameter set are executed '
             'on the real NetworkingThread.add_outbound_message/_repeated_enqueue_msg with clock and RNG owned by the '
             'harness; the envelope (count, initial delay, first-gap window, doubling, cap in seconds) is checked on every '
@@ -248,7 +248,7 @@ CHECKS = {
             'TLS-to-plaintext and plaintext-to-TLS connects like a real peer; that the real socket classes honour the context they '
             'are given is not explored.', '3/C19'),
     'C20': ('I', 'exhaustive enumeration of all handle lists up to a length bound over several MDIB contents, and of the full product of localization filter parameters over several stores, through the real consumer clients and provider services',
-            'Extensions: GetSupportedLanguages / GetLocalizedText between the additions to the text store; certloader histories: an earlier load of the same key / certificate without CA or with another CA in the same process, then the CA load; text store filled by several add() calls in every order (late versions, late single translation, repeated batch); '
+            'Extensions: requests that reach the provider under other Host names (localhost, alternative name, foreign host, none) - every advertised address and WSDL location stays https; GetSupportedLanguages / GetLocalizedText between the additions to the text store; certloader histories: an earlier load of the same key / certificate without CA or with another CA in the same process, then the CA load; text store filled by several add() calls in every order (late versions, late single translation, repeated batch); '
             'All handle lists of length <= 2 (thorough 3) over a pool of 9-11 handles (two context-state handles, context descriptors, '
             'metric, MDS of both MDS, VMD, system context, unknown - duplicates and mixed kinds arise by construction) are sent as '
             'GetMdState and GetContextStates through the real consumer service clients over the loop-back transport, for 4 MDIB '
